@@ -656,7 +656,7 @@ class cst(exp):
             if n.v >= self.size:
                 # all bits are shifted out (and python can't build 1<<(2**40))
                 return cst(0, self.size)
-            return cst(self.value << n.value, self.size)
+            return cst(self.value << n.v, self.size)
         else:
             return exp.__lshift__(self, n)
 
@@ -664,7 +664,7 @@ class cst(exp):
     def __rshift__(self, n):
         self.sf = False  # rshift implements logical right shift
         if n._is_cst:
-            return cst(self.value >> n.value, self.size)
+            return cst(self.value >> n.v, self.size)
         else:
             return exp.__rshift__(self, n)
 
@@ -672,7 +672,7 @@ class cst(exp):
     def __floordiv__(self, n):
         self.sf = True  # floordiv implements arithmetic right shift
         if n._is_cst:
-            return cst(self.value >> n.value, self.size)
+            return cst(self.value >> n.v, self.size)
         else:
             return exp.__floordiv__(self, n)
 
